@@ -60,7 +60,18 @@ pub enum Op {
     Advance(Adv),
     Poll,
     Drain,
-    Response { id: u8, error: bool, auth: Auth, from: u8, fp: bool },
+    Response {
+        id: u8,
+        error: bool,
+        auth: Auth,
+        from: u8,
+        fp: bool,
+        /// what else the response carries: bits 0..2 index of the ERROR-CODE (401, 438, 400, 420, 300,
+        /// 500, 487, 699), bit 3 REALM (bit 4: another realm than the one of the long-term key),
+        /// bit 5 NONCE, bit 6 USERNAME, bit 7 XOR-MAPPED-ADDRESS
+        #[serde(default)]
+        content: u8,
+    },
     Incoming { id: u8, indication: bool, from: u8 },
     Cancel { id: u8 },
     CancelRetransmissions { id: u8 },
@@ -132,6 +143,8 @@ pub struct Disc {
     pub sig: String,
     pub msg: String,
     pub step: usize,
+    /// the same event seen as a violation of another property's statement: (tag, sig, msg)
+    pub also: Vec<(&'static str, String, String)>,
 }
 
 fn disc(tag: &'static str, sig: &str, step: usize, msg: String) -> Disc {
@@ -140,6 +153,7 @@ fn disc(tag: &'static str, sig: &str, step: usize, msg: String) -> Disc {
         sig: sig.to_string(),
         msg,
         step,
+        also: vec![],
     }
 }
 
@@ -337,12 +351,36 @@ fn with_request<R>(id: u128, class: u8, seal: u8, payload: u8, f: impl FnOnce(Me
 }
 
 /// response bytes assembled by the reference code (independent HMAC)
-pub fn response_bytes(id: u128, error: bool, auth: Auth, fp: bool) -> Vec<u8> {
+pub const RESPONSE_CODES: [u16; 8] = [401, 438, 400, 420, 300, 500, 487, 699];
+
+pub fn response_bytes(id: u128, error: bool, auth: Auth, fp: bool, content: u8) -> Vec<u8> {
     let mtype = refstun::type_encode(if error { 3 } else { 2 }, 1);
     let mut buf = refstun::header(mtype, 0, id);
     refstun::push_tlv(&mut buf, 0x8022, b"srv", 0);
     if error {
-        refstun::push_tlv(&mut buf, 0x0009, &[0, 0, 4, 1, b'n', b'o'], 0);
+        let code = RESPONSE_CODES[(content & 7) as usize];
+        let mut v = vec![0, 0, (code / 100) as u8, (code % 100) as u8];
+        if content & 7 == 0 {
+            v.extend_from_slice(b"no");
+        } else {
+            v.extend_from_slice(ErrorCode::default_reason_for_code(code).as_bytes());
+        }
+        refstun::push_tlv(&mut buf, 0x0009, &v, 0);
+    }
+    if content & 0x08 != 0 {
+        // the realm of the long-term remote credentials (key B), or another one
+        let realm: &[u8] = if content & 0x10 == 0 { b"example.org" } else { b"other.example" };
+        refstun::push_tlv(&mut buf, 0x0014, realm, 0);
+    }
+    if content & 0x20 != 0 {
+        refstun::push_tlv(&mut buf, 0x0015, b"nonce-0001", 0);
+    }
+    if content & 0x40 != 0 {
+        refstun::push_tlv(&mut buf, 0x0006, b"bob", 0);
+    }
+    if content & 0x80 != 0 {
+        let a: SocketAddr = "203.0.113.5:40000".parse().unwrap();
+        refstun::push_tlv(&mut buf, 0x0020, &crate::refattrs::xor_addr_value(a, id), 0);
     }
     match auth {
         Auth::Unsigned => {}
@@ -425,6 +463,11 @@ pub struct Interp<'h> {
     /// steps at which the interpreter itself drained the agent before injecting a response (the
     /// control runs keep that drain so that the poll schedule of the history is unchanged)
     pub drained: Vec<usize>,
+    /// when set, unrelated agents perform nearly the same operations just before the agent under
+    /// test does (same transaction id and destination, timeout parameters that differ by less
+    /// than a millisecond): anything keyed on such parameters outside the agent would be shared
+    pub interference: bool,
+    noise: Vec<StunAgent>,
 }
 
 fn ms_of(origin: Instant, t: Instant) -> u64 {
@@ -462,6 +505,35 @@ impl<'h> Interp<'h> {
             noeffect: vec![],
             forged: vec![],
             drained: vec![],
+            interference: false,
+            noise: vec![],
+        }
+    }
+
+    /// an unrelated agent sends a request with the same id to the same destination and configures it
+    /// with parameters a fraction of a millisecond away from (rto, retransmits, last)
+    fn noise_configure(&mut self, tid: u128, dest: SocketAddr, cfg: (u32, u8, u32)) {
+        if !self.interference {
+            return;
+        }
+        let at = self.at(self.now);
+        let mut o = StunAgent::builder(self.transport, "10.9.9.9:1".parse().unwrap()).build();
+        with_request(tid, 0, 0, 7, |b, _| {
+            let _ = o.send(b, dest, at);
+        });
+        if let Some(mut r) = o.mut_request_transaction(TransactionId::from(tid)) {
+            r.configure_timeout(
+                Duration::from_micros(cfg.0 as u64 * 1000 + 750),
+                cfg.1 as u32,
+                Duration::from_micros(cfg.2 as u64 * 1000 + 500),
+            );
+        }
+        let _ = o.poll(at);
+        if self.noise.len() < 8 {
+            self.noise.push(o);
+        }
+        for n in self.noise.iter_mut() {
+            let _ = n.poll(at);
         }
     }
 
@@ -543,6 +615,14 @@ impl<'h> Interp<'h> {
         let mut addrs: Vec<SocketAddr> = (0..3).map(peer).collect();
         addrs.push(never_used_peer());
         addrs.push(local_addr());
+        // the same IPv6 address and port with another scope id / flow label, and the neighbouring
+        // port of an IPv4 peer: distinct socket addresses from which nothing is ever received
+        if let SocketAddr::V6(v6) = peer(2) {
+            addrs.push(SocketAddr::V6(std::net::SocketAddrV6::new(*v6.ip(), v6.port(), 0, 3)));
+            addrs.push(SocketAddr::V6(std::net::SocketAddrV6::new(*v6.ip(), v6.port(), 7, 0)));
+        }
+        addrs.push("192.0.2.1:3479".parse().unwrap());
+        addrs.push("[::ffff:192.0.2.1]:3478".parse().unwrap());
         for a in addrs {
             let got = self.agent.is_validated_peer(a);
             let want = self.model.validated.contains(&a);
@@ -628,6 +708,7 @@ impl<'h> Interp<'h> {
                         dropped_forged: false,
                     };
                     if let Some((rto, n, last)) = cfg {
+                        self.noise_configure(tid, dest, (rto, n, last));
                         match self.agent.mut_request_transaction(TransactionId::from(tid)) {
                             Some(mut req) => {
                                 req.configure_timeout(Duration::from_millis(rto as u64), n as u32, Duration::from_millis(last as u64))
@@ -997,10 +1078,10 @@ impl<'h> Interp<'h> {
         Err(self.d("C05", "c05-poll-never-settles", format!("poll keeps producing events at the same instant ({} polls)", bound)))
     }
 
-    fn do_response(&mut self, id: u8, error: bool, auth: Auth, from: u8, fp: bool) -> Result<(), Disc> {
+    fn do_response(&mut self, id: u8, error: bool, auth: Auth, from: u8, fp: bool, content: u8) -> Result<(), Disc> {
         let tid = pool_id(id);
         let from = peer(from);
-        let bytes = response_bytes(tid, error, auth, fp);
+        let bytes = response_bytes(tid, error, auth, fp, content);
         let mut expect_deliver = match self.model.outstanding.get(&tid) {
             None => None,
             Some(tx) => Some(!tx.had_integrity || self.model.remote.as_ref().map(|c| ref_validates(&bytes, &c.key())).unwrap_or(false)),
@@ -1068,6 +1149,13 @@ impl<'h> Interp<'h> {
                 let got: u128 = m.transaction_id().into();
                 if got != tid {
                     return Err(self.d("C05", "c05-delivered-not-outstanding", "delivered response carries another transaction id".into()));
+                }
+                if self.agent.request_transaction(TransactionId::from(tid)).is_some() {
+                    return Err(self.d(
+                        "C05",
+                        "c05-delivered-still-outstanding",
+                        format!("a response for {:#x} was delivered (StunResponse) but the transaction is still outstanding afterwards", tid),
+                    ));
                 }
                 let tx = self.model.outstanding.remove(&tid).unwrap();
                 if tx.dropped_forged {
@@ -1151,14 +1239,25 @@ impl<'h> Interp<'h> {
             }
             (Some(false), _) => {
                 let tx = &self.model.outstanding[&tid];
-                return Err(self.d(
+                let still = self.agent.request_transaction(TransactionId::from(tid)).is_some();
+                let mut d = self.d(
                     "C07",
                     "c07-forged-delivered",
                     format!(
                         "a response to the sealed request {:#x} was delivered although it must be dropped: response auth {:?}, remote credentials {:?}, request sealed: {}",
                         tid, auth, self.model.remote, tx.had_integrity
                     ),
-                ));
+                );
+                if still && matches!(reply, HandleStunReply::StunResponse(_)) {
+                    // delivered, yet the transaction stays outstanding: it can be delivered again, be
+                    // retransmitted and time out later (more than one outcome for one request)
+                    let msg = format!(
+                        "step {} (t={} ms): a response for {:#x} was delivered (StunResponse) but the transaction is still outstanding afterwards: a delivered transaction must be complete",
+                        self.step, self.now, tid
+                    );
+                    d.also.push(("C05", "c05-delivered-still-outstanding".to_string(), msg));
+                }
+                return Err(d);
             }
         }
         Ok(())
@@ -1215,7 +1314,7 @@ impl<'h> Interp<'h> {
                 self.do_poll()?;
             }
             Op::Drain => self.do_drain()?,
-            Op::Response { id, error, auth, from, fp } => self.do_response(*id, *error, *auth, *from, *fp)?,
+            Op::Response { id, error, auth, from, fp, content } => self.do_response(*id, *error, *auth, *from, *fp, *content)?,
             Op::Incoming { id, indication, from } => self.do_incoming(*id, *indication, *from)?,
             Op::Cancel { id } => {
                 let tid = pool_id(*id);
@@ -1255,6 +1354,9 @@ impl<'h> Interp<'h> {
             Op::Configure { id, rto_ms, retransmits, last_ms } => {
                 let tid = pool_id(*id);
                 let tcp = self.model.tcp;
+                if let Some(dest) = self.model.outstanding.get(&tid).map(|t| t.dest) {
+                    self.noise_configure(tid, dest, (*rto_ms, *retransmits, *last_ms));
+                }
                 if let Some(mut r) = self.agent.mut_request_transaction(TransactionId::from(tid)) {
                     r.configure_timeout(Duration::from_millis(*rto_ms as u64), *retransmits as u32, Duration::from_millis(*last_ms as u64));
                     if let Some(tx) = self.model.outstanding.get_mut(&tid) {
@@ -1349,6 +1451,43 @@ pub fn process_origin() -> Instant {
 
 pub fn run_history(h: &History) -> Result<Summary, Disc> {
     Interp::new(h, process_origin()).run()
+}
+
+/// as `run_history`, alongside unrelated agents that use nearly the same parameters
+pub fn run_history_with_interference(h: &History) -> Result<Summary, Disc> {
+    let mut i = Interp::new(h, process_origin());
+    i.interference = true;
+    i.run()
+}
+
+/// the same history with every configured initial rto moved by `d` ms (other timeout parameters too)
+pub fn shift_config(h: &History, d: u32) -> History {
+    let mv = |x: u32| if x + d <= 60_000 { x + d } else { x.saturating_sub(d) };
+    History {
+        tcp: h.tcp,
+        ops: h
+            .ops
+            .iter()
+            .map(|o| match o {
+                Op::SendConfigured { id, seal, dest, payload, rto_ms, retransmits, last_ms } => Op::SendConfigured {
+                    id: *id,
+                    seal: *seal,
+                    dest: *dest,
+                    payload: *payload,
+                    rto_ms: mv(*rto_ms),
+                    retransmits: *retransmits,
+                    last_ms: mv(*last_ms),
+                },
+                Op::Configure { id, rto_ms, retransmits, last_ms } => Op::Configure {
+                    id: *id,
+                    rto_ms: mv(*rto_ms),
+                    retransmits: *retransmits,
+                    last_ms: mv(*last_ms),
+                },
+                other => other.clone(),
+            })
+            .collect(),
+    }
 }
 
 pub struct RunInfo {
@@ -1453,8 +1592,16 @@ pub fn op_strategy(p: Profile) -> BoxedStrategy<Op> {
         retransmits,
         last_ms,
     });
-    let response = (prop_oneof![6 => id(), 1 => 4u8..6], any::<bool>(), auth_strategy(), 0u8..3, any::<bool>())
-        .prop_map(|(id, error, auth, from, fp)| Op::Response { id, error, auth, from, fp });
+    let response = (
+        prop_oneof![6 => id(), 1 => 4u8..6],
+        any::<bool>(),
+        auth_strategy(),
+        0u8..3,
+        any::<bool>(),
+        // mostly the plain response; otherwise REALM / NONCE / USERNAME / address in all combinations
+        prop_oneof![3 => Just(0u8), 2 => any::<u8>(), 1 => (0u8..8).prop_map(|c| c | 0x28), 1 => (0u8..8).prop_map(|c| c | 0x38)],
+    )
+        .prop_map(|(id, error, auth, from, fp, content)| Op::Response { id, error, auth, from, fp, content });
     let incoming = (prop_oneof![2 => id(), 1 => 4u8..6], any::<bool>(), 0u8..3).prop_map(|(id, indication, from)| Op::Incoming { id, indication, from });
     let cancel = id().prop_map(|id| Op::Cancel { id });
     let cancel_r = id().prop_map(|id| Op::CancelRetransmissions { id });
@@ -1624,9 +1771,9 @@ pub fn record_run_clock(
                     return None;
                 }
             }
-            Op::Response { id, error, auth, from, fp } => {
+            Op::Response { id, error, auth, from, fp, content } => {
                 if concerns(*id) {
-                    let bytes = response_bytes(pool_id(*id), *error, *auth, *fp);
+                    let bytes = response_bytes(pool_id(*id), *error, *auth, *fp, *content);
                     if let Ok(m) = Message::from_bytes(&bytes) {
                         let r = match agent.handle_stun(m, peer(*from)) {
                             HandleStunReply::Drop => "drop".to_string(),
